@@ -167,6 +167,9 @@ def encs(detector, ident=0, slots="", a=0.0, b=0.0, c=0.0, d=0.0, sleep_scale=0.
         sig[:, int(slot)] = float(mem)
     if int(trace) >= 0:
         pix[:, int(trace)] = pix[:, int(trace)] * 16.0 + float(int(ident) % 13 + 1)
+        if pix.shape[1] > int(trace) + 1:
+            # one more column: the SETTINGS of the detector this run works on (small integers), as one code
+            pix[:, int(trace) + 1] = float(encode(detector_settings(detector))[0])
     detector.pixel.array = pix
     detector.signal.array = sig
     try:
@@ -179,6 +182,19 @@ def encs(detector, ident=0, slots="", a=0.0, b=0.0, c=0.0, d=0.0, sleep_scale=0.
         else:
             s = sleep_scale * ((int(sleep_mult) * total) % 5) / 4.0
         time.sleep(s)
+
+
+def detector_settings(detector):
+    """settings of the sub-objects of the detector (characteristics, geometry) a model may read"""
+    out = []
+    for get in (lambda: detector.characteristics.pre_amplification, lambda: detector.characteristics.full_well_capacity,
+                lambda: detector.characteristics.adc_bit_resolution, lambda: detector.geometry.total_thickness,
+                lambda: detector.geometry.pixel_vert_size, lambda: detector.geometry.pixel_horz_size):
+        try:
+            out.append(float(get()))
+        except Exception:  # noqa: BLE001  (setting lost)
+            out.append(12.0)
+    return out
 
 
 def draw(detector, p0=0.0, n=1, sync=False, first=0.0, pause=0.0):
